@@ -101,9 +101,11 @@ def gen_tree(rng, depth, maxdepth):
                 children.append(gen_tree(rng, depth + 1, maxdepth))
                 last_text = False
             elif r < 0.6 and not last_text:
-                pcs = gen_chars(rng, rng.randint(1, 8), first_nonspace=True, forbid=b"<")
+                # text may begin (and end) with white space; a text of white space only is formatting between markup,
+                # which the parser skips by design (recorded as C14-F1b) - not generated here
+                pcs = gen_chars(rng, rng.randint(1, 8), first_nonspace=rng.random() < 0.4, forbid=b"<")
                 pcs = [p for p in pcs if b"<" not in p[0]]
-                if not pcs or pcs[0][0][:1] in (b" ", b"\t", b"\n", b"\r"):
+                if not pcs or not b"".join(p[0] for p in pcs).strip(b" \t\r\n"):
                     continue
                 children.append(("t", b"".join(p[0] for p in pcs), b"".join(p[1] for p in pcs)))
                 last_text = True
@@ -349,6 +351,11 @@ def witness_cases():
     return [
         ("X %s %s" % (DEF, hx(b"<a> hi</a>")), {"kind": "doc", "expect": ["S,61,-,-,1", "T,-,%s,-,1" % hx(b" hi"), "E,61,-,-,1"],
                                                  "dom": "E(61;-;T(%s))" % hx(b" hi"), "opts": (256, 256, 1024, 1048576, 0), "ws": True}),
+        ("X %s %s" % (DEF, hx(b"<a>\n  x &amp; y  <b/> tail</a>")),
+         {"kind": "doc", "expect": ["S,61,-,-,1", "T,-,%s,-,1" % hx(b"\n  x &amp; y  "), "M,62,-,-,2", "T,-,%s,-,1" % hx(b" tail"), "E,61,-,-,1"],
+          "dom": "E(61;-;T(%s)E(62;-;)T(%s))" % (hx(b"\n  x & y  "), hx(b" tail")), "opts": (256, 256, 1024, 1048576, 0), "ws": True}),
+        ("X %s %s" % (DEF, hx(b"<a> </a>")), {"kind": "doc", "expect": ["S,61,-,-,1", "T,-,%s,-,1" % hx(b" "), "E,61,-,-,1"],
+                                              "dom": "E(61;-;T(%s))" % hx(b" "), "opts": (256, 256, 1024, 1048576, 0), "wsonly": True}),
         ("N " + hx(b"&#4294967361;"), {"kind": "ent-bad", "wrap": True}),
         ("N " + hx(b"&#x;"), {"kind": "ent-bad", "wrap": True}),
     ]
@@ -395,7 +402,8 @@ def evaluate(ctx, v, cases, impl, model):
                     failed = True
             if k == "doc" and not failed:
                 if head != "OK" or tl != meta["expect"] or dom != meta["dom"]:
-                    sig = "xml-leading-whitespace-dropped" if meta.get("ws") else "report-faithful"
+                    sig = "xml-leading-whitespace-dropped" if meta.get("ws") else \
+                          "xml-whitespace-only-text-dropped" if meta.get("wsonly") else "report-faithful"
                     v.property_failure(sig, "pull/SAX/DOM do not report the document as it was built", line,
                                        "impl=%s\nexpected=%s | DOM %s" % (ri[:900], ";".join(meta["expect"])[:600], meta["dom"][:300]))
                     failed = True
